@@ -450,6 +450,84 @@ fn main() {
                 }
             }
         }
+        Some("bodies") => {
+            // parse_async is its own copy of the streaming loop and can only be driven over HTTP: realistic and awkward symbol files
+            // (lines longer than the initial / the maximal buffer, CRLF, no final newline, blank lines) under several chunkings.
+            // The verdict comes from the whole-buffer parser: same Ok / Err, same table, and the cache holds exactly body + note.
+            let base = tempfile::Builder::new().prefix("vf-http-b-").tempdir().unwrap();
+            let head = format!("MODULE Linux x86_64 {} lib.so\n", DEBUG_ID);
+            let long = |n: usize| -> String { std::iter::repeat('x').take(n).collect() };
+            let bodies: Vec<(&str, Vec<u8>)> = vec![
+                ("plain", format!("{}FUNC 1000 10 0 f1\nPUBLIC 2000 0 p1\n", head).into_bytes()),
+                ("crlf", format!("{}FUNC 1000 10 0 f1\r\nPUBLIC 2000 0 p1\r\n", head.trim_end().to_string() + "\r\n").into_bytes()),
+                ("no-final-newline", format!("{}FUNC 1000 10 0 f1\nPUBLIC 2000 0 p1", head).into_bytes()),
+                ("blank-lines", format!("{}\n\nFUNC 1000 10 0 f1\n\nPUBLIC 2000 0 p1\n\n", head).into_bytes()),
+                ("line-200k", format!("{}FUNC 1000 10 0 f1\nPUBLIC 2000 0 {}\nPUBLIC 3000 0 after\n", head, long(200 * 1024)).into_bytes()),
+                ("line-200k-func", format!("{}FUNC 1000 10 0 {}\n1000 10 1 0\nPUBLIC 3000 0 after\n", head, long(200 * 1024)).into_bytes()),
+                ("line-1m-info", format!("{}INFO {}\nFUNC 1000 10 0 f1\n", head, long(1024 * 1024)).into_bytes()),
+                ("line-3m", format!("{}FUNC 1000 10 0 f1\nPUBLIC 2000 0 {}\nPUBLIC 3000 0 after\n", head, long(3 * 1024 * 1024)).into_bytes()),
+                ("two-long-lines", format!("{}PUBLIC 2000 0 {}\nPUBLIC 2100 0 {}\nFUNC 1000 10 0 tail\n", head, long(170 * 1024), long(90 * 1024)).into_bytes()),
+                ("long-then-garbage", format!("{}PUBLIC 2000 0 {}\nTHIS IS NOT A RECORD\n", head, long(200 * 1024)).into_bytes()),
+                ("only-module", head.clone().into_bytes()),
+                ("empty", vec![]),
+            ];
+            for (bi, (bname, body)) in bodies.iter().enumerate() {
+                for (ci, (pieces, chunked)) in [(1usize, false), (3, true), (64, false), (257, true)].iter().enumerate() {
+                    let sandbox = base.path().join(format!("b{}_{}", bi, ci));
+                    let cache = sandbox.join("cache");
+                    let tmp = sandbox.join("tmp");
+                    std::fs::create_dir_all(&cache).unwrap();
+                    std::fs::create_dir_all(&tmp).unwrap();
+                    let step = (body.len() / pieces).max(1);
+                    let mut chunks: Vec<Vec<u8>> = body.chunks(step).map(|c| c.to_vec()).collect();
+                    if chunks.is_empty() { chunks.push(vec![]); }
+                    let n = chunks.len();
+                    let mut server = Server::start(UrlScript { status: 200, cut: n, bad_at: 0, drop_at: n + 1 }, chunks, Conc { mid: false, chunked: *chunked, via_file: false });
+                    let supplier = HttpSymbolSupplier::new(vec![format!("http://127.0.0.1:{}/sub/", server.port)], cache.clone(), tmp.clone(), vec![], Duration::from_secs(60));
+                    let m = module("lib.so", "lib.so");
+                    let got = rt.block_on(async { tokio::time::timeout(Duration::from_secs(60), supplier.locate_symbols(&m)).await });
+                    drop(supplier);
+                    let reqs = server.finish();
+                    rep.evaluations += 1;
+                    let whole = breakpad_symbols::SymbolFile::from_bytes(body);
+                    rep.class(&format!("bodies:{}:{}", bname, if whole.is_ok() { "ok" } else { "err" }));
+                    let detail = |what: &str| json!({"body": bname, "len": body.len(), "pieces": pieces, "chunked": chunked, "what": what});
+                    let target = reqs.first().and_then(|l| l.split(' ').nth(1)).unwrap_or("?").to_string();
+                    let url = format!("http://127.0.0.1:{}{}", server.port, target);
+                    match (&got, &whole) {
+                        (Err(_), _) => rep.mismatch("bodies:hang", detail("no answer within 60 s")),
+                        (Ok(Ok(r)), Ok(w)) => {
+                            let mut a = sym_key(&r.symbols);
+                            a.4 = None;
+                            let mut b = sym_key(w);
+                            b.4 = None;
+                            if a != b { rep.mismatch("bodies:table-differs-from-whole-buffer-parse", detail("streamed download parsed to a different symbol table")); }
+                            let mut want = body.clone();
+                            want.extend_from_slice(format!("INFO URL {}\n", url).as_bytes());
+                            let have = tree(&cache);
+                            if have.len() != 1 || have[0].1 != want {
+                                let hl = have.first().map(|h| h.1.len()).unwrap_or(0);
+                                rep.mismatch("bodies:cache-entry-not-body-plus-note", json!({"body": bname, "pieces": pieces, "chunked": chunked, "entry_len": hl, "want_len": want.len()}));
+                            } else {
+                                let offline = HttpSymbolSupplier::new(vec![], cache.clone(), tmp.clone(), vec![], Duration::from_secs(5));
+                                match rt.block_on(offline.locate_symbols(&m)) {
+                                    Ok(r2) => {
+                                        if sym_key(&r2.symbols) != sym_key(&r.symbols) { rep.mismatch("bodies:offline-differs", detail("cached copy parses to a different table or URL")); }
+                                    }
+                                    Err(e) => rep.mismatch("bodies:offline-entry-unusable", detail(&format!("{:?}", e))),
+                                }
+                            }
+                        }
+                        (Ok(Err(_)), Err(_)) => {
+                            if !tree(&cache).is_empty() { rep.mismatch("bodies:entry-after-failed-parse", detail("a body the parser rejects was cached")); }
+                        }
+                        (Ok(Ok(_)), Err(e)) => rep.mismatch("bodies:streamed-ok-whole-err", detail(&format!("{:?}", e))),
+                        (Ok(Err(e)), Ok(_)) => rep.mismatch("bodies:streamed-err-whole-ok", detail(&format!("{:?}", e))),
+                    }
+                    if !tree(&tmp).is_empty() { rep.mismatch("bodies:stray-temp", detail("temp file left behind")); }
+                }
+            }
+        }
         Some("symfile") => {
             // the third way into the cache: SymbolSupplier::locate_file(module, FileKind::BreakpadSym) fetches a .sym file
             // opaquely (fetch_lookup) into the very path locate_symbols reads symbol files from
